@@ -1,3 +1,5 @@
 //! Shared code of the verification harnesses (see /verif/DESIGN.md section 4).
 pub mod chain;
+pub mod simnode;
+pub mod tower;
 pub mod trace;
